@@ -93,7 +93,7 @@ def build_create_period(i):
         'is_https_request': lambda: False, 'objects': NS(dict_to_cgi_params=lambda d: ''), 'models': NS(Stream=object, Period=object, Key=object),
         'DrmContext': object, 'KeyMaterial': object, 'Set': set})
     us = lambda dt: (dt - EPOCH) // datetime.timedelta(microseconds=1) if isinstance(dt, datetime.datetime) else -1
-    env = {'ast_us': g('ast_us'), 'depth': g('depth'), 'opt_depth': g('opt_depth'), 'self': me, 'micros': us,
+    env = {'ast_us': g('ast_us'), 'depth': g('depth'), 'opt_depth': g('opt_depth'), 'self': me, 'instant_us': us,
            'params_of': lambda period, k, kind: len(period.adaptationSets) > k and period.adaptationSets[k].got_params == {'k': kind}
            and period.adaptationSets[k].content_type == kind}
     return {'env': env, 'old_env': dict(env), 'call': lambda: fn(me, NS(directory='d'), timing, None),
